@@ -172,6 +172,18 @@ carquet_schema_t* build_schema(
     const parquet_file_metadata_t* metadata,
     carquet_error_t* error) {
 
+    /* FileMetaData.schema is a required field and always holds at least the
+     * root element. Without this check an empty struct (a single STOP byte)
+     * passes as the footer of an empty table, so a file cut right behind
+     * user data that happens to read 00 01 00 00 00 "PAR1" opens 'fine'.
+     * (Checked here, for all open paths, rather than in the Thrift parser,
+     * which stays a plain codec for any FileMetaData value.) */
+    if (metadata->num_schema_elements < 1 || !metadata->schema) {
+        CARQUET_SET_ERROR(error, CARQUET_ERROR_INVALID_METADATA,
+            "File metadata has no schema");
+        return NULL;
+    }
+
     carquet_schema_t* schema = carquet_arena_calloc(arena, 1, sizeof(carquet_schema_t));
     if (!schema) {
         CARQUET_SET_ERROR(error, CARQUET_ERROR_OUT_OF_MEMORY, "Failed to allocate schema");
